@@ -12,6 +12,9 @@ One program `c<k>` = two modules `c<k>a`, `c<k>b` (all functions exported, cross
   cb             function address taken as an operand and passed to C (extcb), which calls it back twice
   w              8 integer + 9 double parameters (stack-passed arguments, all xmm argument registers)
   cw             calls `w` directly and through C (extcbw)
+  mr<j> / mc<j>  multi-result functions over every 1-, 2- and 3-tuple of result types (i64, narrow ints, f, d, ld) the
+                 convention can return (rax:rdx, xmm0:xmm1, st0:st1); `mc` makes the multi-result call from MIR, the plan
+                 command `callm` from C (the harness reads the result registers itself)
   bf<j> / bc<j>  functions with a by-value block parameter (blk, blk1..blk4, rblk; sizes 8..40) preceded by 0..7
                  integer and 0..9 double parameters and followed by an integer and a double one; `bc` passes the
                  block from MIR, the plan command `callb` from C (the harness places the arguments per the psABI)
@@ -211,10 +214,71 @@ def block_caller(r, name, callee, proto, ni, nf, cls, size):
     return L
 
 
+# ---- multiple results: every pair / triple of result types the x86-64 convention can return
+RES_TYPES = ["i64", "i32", "u32", "i16", "u16", "i8", "u8", "f", "d", "ld"]
+_RCLASS = {"f": "x", "d": "x", "ld": "l"}
+
+
+def _res_ok(ts):
+    cnt = {}
+    for t in ts:
+        c = _RCLASS.get(t, "i")
+        cnt[c] = cnt.get(c, 0) + 1
+    return all(v <= 2 for v in cnt.values())   # rax:rdx, xmm0:xmm1, st(0):st(1)
+
+
+RESULT_GRID = ([(a,) for a in RES_TYPES] + [(a, b) for a in RES_TYPES for b in RES_TYPES]
+               + [(a, b, c) for a in RES_TYPES for b in RES_TYPES for c in RES_TYPES if _res_ok((a, b, c))])   # 10 + 100 + 648
+_EXT = {"i32": "ext32", "u32": "uext32", "i16": "ext16", "u16": "uext16", "i8": "ext8", "u8": "uext8"}
+_REGT = {"f": "f", "d": "d", "ld": "ld"}
+
+
+def multires_func(r, name, ts):
+    """(a0, a1, x0) -> (t1, t2[, t3]): every result is a different function of the arguments, exactly
+    representable in its type (so that no conversion rounds)"""
+    L = [f"{name}: func {', '.join(ts)}, i64:a0, i64:a1, d:x0",
+         "  local i64:t, i64:u, " + ", ".join(f"{_REGT.get(t, 'i64')}:v{k}" for k, t in enumerate(ts)),
+         "  dlt u, x0, 1.0"]
+    for k, t in enumerate(ts):
+        c = 1 + r.below(1 << 28)
+        L += [f"  add t, a0, {c}", "  xor t, t, a1", "  add t, t, u"]
+        if t == "i64":
+            L.append(f"  mov v{k}, t")
+        elif t in _EXT:
+            L.append(f"  {_EXT[t]} v{k}, t")
+        elif t == "f":
+            L += ["  and t, t, 4095", f"  i2f v{k}, t"]
+        elif t == "d":
+            L += ["  and t, t, 1048575", f"  i2d v{k}, t"]
+        else:
+            L += ["  and t, t, 1048575", f"  i2ld v{k}, t"]
+    L += ["  ret " + ", ".join(f"v{k}" for k in range(len(ts))), "  endfunc"]
+    return L
+
+
+def multires_caller(r, name, callee, proto, ts):
+    """MIR caller (helper signature): a multi-result call; every result enters the returned hash in order"""
+    L = [f"{name}: func {HHDR}", "  local i64:r, i64:t, " + ", ".join(f"{_REGT.get(t, 'i64')}:v{k}" for k, t in enumerate(ts)),
+         f"  call {proto}, {callee}, " + ", ".join(f"v{k}" for k in range(len(ts))) + ", a1, a0, x0", "  mov r, 23"]
+    for k, t in enumerate(ts):
+        if t == "f":
+            L.append(f"  f2i t, v{k}")
+        elif t == "d":
+            L.append(f"  d2i t, v{k}")
+        elif t == "ld":
+            L.append(f"  ld2i t, v{k}")
+        else:
+            L.append(f"  mov t, v{k}")
+        L += ["  mul r, r, 1000003", "  xor r, r, t"]
+    L += ["  ret r", "  endfunc"]
+    return L
+
+
 class C03Prog:
-    def __init__(self, name, mods, entries, helpers_sig, wides, stats, blocks=()):
+    def __init__(self, name, mods, entries, helpers_sig, wides, stats, blocks=(), multis=()):
         self.name, self.mods, self.entries, self.hfuncs, self.wides, self.stats = name, mods, entries, helpers_sig, wides, stats
         self.blocks = list(blocks)   # (function, ni, nf, cls, size)
+        self.multis = list(multis)   # (function, result types)
 
     def text(self):
         return "".join(m.text() for m in self.mods)
@@ -239,7 +303,7 @@ def fix_imports(mods):
                         m.imports.add(c)
 
 
-def gen_c03_program(rng, name, opts=None, many_doubles=False, block_positions=()):
+def gen_c03_program(rng, name, opts=None, many_doubles=False, block_positions=(), result_tuples=()):
     A, B = Mod(name + "a"), Mod(name + "b")
     for m in (A, B):
         m.protos |= {PH, PCB, PCBW, PTAB, PW}
@@ -301,7 +365,19 @@ def gen_c03_program(rng, name, opts=None, many_doubles=False, block_positions=()
         caller_mod.raw(block_caller(rng, bc, bf, pb, ni, nf, cls, size), bc)
         blocks.append((bf, ni, nf, cls, size))
         bcs.append(bc)
-    hs = a_h + b_h + [r0, ma, mb, na, ap, cb, cw, lr] + bcs
+    # multi-result functions (callee in one module, MIR caller in the other)
+    multis, mcs = [], []
+    for j, ts in enumerate(result_tuples):
+        callee_mod, caller_mod = (B, A) if j % 2 == 0 else (A, B)
+        cm, rm = ("b", "a") if j % 2 == 0 else ("a", "b")
+        mr, mc, pm = f"{name}{cm}_mr{j}", f"{name}{rm}_mc{j}", f"pm{j}"
+        callee_mod.raw(multires_func(rng, mr, ts), mr)
+        caller_mod.protos.add(f"{pm}: proto {', '.join(ts)}, i64:a0, i64:a1, d:x0")
+        caller_mod.imports.add(mr)
+        caller_mod.raw(multires_caller(rng, mc, mr, pm, ts), mc)
+        multis.append((mr, ts))
+        mcs.append(mc)
+    hs = a_h + b_h + [r0, ma, mb, na, ap, cb, cw, lr] + bcs + mcs
     eo = dict(opts or {})
     if many_doubles:
         eo.update(ndbl=12)
@@ -319,7 +395,8 @@ def gen_c03_program(rng, name, opts=None, many_doubles=False, block_positions=()
     stats["many_doubles"] = 1 if many_doubles else 0
     stats["lref_tables"] = 1
     stats["block_param_funcs"] = len(blocks)
-    return C03Prog(name, [A, B], [ea, eb], [r0, ma, mb, na, ap, cb, cw, lr, a_h[0], b_h[0]] + bcs, [w], stats, blocks)
+    stats["multi_result_funcs"] = len(multis)
+    return C03Prog(name, [A, B], [ea, eb], [r0, ma, mb, na, ap, cb, cw, lr, a_h[0], b_h[0]] + bcs + mcs, [w], stats, blocks, multis)
 
 
 HARGS = [(3, 5, 1.0), (7, 0xffffffffffffffff, -2.5), (0x123456789, 12, 1e300), (6, 1 << 40, 0.0)]
@@ -338,6 +415,12 @@ def calls_for(P, argsets, rng, nh=5):
         calls.append(f"callh {f} {a[0]:x} {a[1]:x} {mirgen_dbits(a[2]):x}")
     for wname in P.wides:
         calls.append(f"wide {wname} {rng.below(1 << 30):x}")
+    for (mr, ts) in P.multis:
+        a = rng.choice(HARGS)
+        calls.append(f"callm {mr} {','.join(ts)} {a[0]:x} {a[1]:x} {mirgen_dbits(a[2]):x}")
+    for mc in [h for h in P.hfuncs if "_mc" in h]:   # every MIR-level multi-result call is made at least once
+        a = rng.choice(HARGS)
+        calls.append(f"callh {mc} {a[0]:x} {a[1]:x} {mirgen_dbits(a[2]):x}")
     for (bf, ni, nf, cls, size) in P.blocks:
         calls.append(f"callb {bf} {ni} {nf} {cls} {size} {rng.below(1 << 30):x}")
     return calls
